@@ -54,6 +54,16 @@ arrays, and sample() / RedshiftData.from_corrfuncs must be the documented estima
 roles or different sums of weights must be refused (Props: C04_algebra_expression_keeps_roles, C04_algebra_sum_refuses_mismatch,
 C04_sample_of_sum, C04_sample_of_multiple, C04_term_of_sum / _multiple / _bin_selection, C04_positional_rebinding_id_iff_prefix /
 _agrees_prefix / _refuted: re-binding the present counts positionally is invisible on dd+dr, dd+dr+rd and complete CorrFuncs).
+(h) many patches (props/c04_big.py): every family above holds 2-7 patches.  CorrFuncs of 100 .. 400 patches (thorough: up to 2000) -
+hand-built with sparse synthetic counts that have non-zero pairs in the rows / columns next to 127, 181, 255, 361 and on the flat positions
+i * N + j next to 2^7, 2^8, 2^15, 2^16, 2^17, and measured by crosscorrelate / autocorrelate on catalogs of 150 .. 700 patches whose patch ids are a
+permutation of their positions - are taken through to_file / from_file, pickle, deepcopy, copy, from_dict(to_dict()), +, sum(), * scalar, .bins[...]
+and .patches[item] with item a list, a range, a slice, a mask or an index array of EVERY integer dtype (int8 .. uint64, negative entries), then
+sampled.  The harness keeps its own sparse copy of what every container must hold (python integers only), compares it after every operation with
+what the implementation stores, reads every file back itself with h5py, and hands the sparse copy with sample().data / .samples to Coq
+(Model/PairIndex.v: c04_big_case, the estimator model evaluated in one pass over the pair list; Props: C04_flat_index_injective,
+C04_flat_index_fits_below / _wraps_from, C04_flat16_fits_181 / _wraps_from_182 / _lands_on_other_pair / _invisible_at_256, C04_sparse_roundtrip /
+_wrapped_refuted, C04_sparse_sample_is_recount, C04_sparse_sums_are_dense, C04_big_normalisation_is_dense); n(z) and normalised() as in (a).
 (b) symbolic traces of landy_szalay, davis_peebles, NormalisedCounts.sample_patch_sum,
 RedshiftData.from_corrdata, HistData.normalised, RedshiftData.normalised are re-proved equal to
 the documented formulas by `ring` (numerator / denominator / radicand separately) on every run.
@@ -65,6 +75,7 @@ import numpy as np
 from lib import floatq as fq
 from props import _jk_common as jk
 from props import c04_alg
+from props import c04_big
 from props import c04_meas
 
 ALLOWED_AXIOMS = ["sig_forall_dec", "sig_not_dec", "functional_extensionality_dep", "classic"]  # only under C04_nz_sqrt_form / _unique (reals)
@@ -81,6 +92,10 @@ TRUSTED = [
     "container algebra: an index expression (int, slice, list, integer array, mask, iteration) is resolved to positions by numpy's own indexing "
     "of arange(n); the expression handed to Coq is built from the generated tree, never from what the implementation returned; the python-side "
     "comparison of the roles held after every operation (c04-algebra-roles-changed:<op>) uses only getattr(cf, role) is None",
+    "many patches: the harness' own sparse containers (props/c04_big.py: dicts keyed by python-integer pairs; +, * scalar, patch and bin selection "
+    "on them), its h5py reader of CorrFunc files, its brute-force pair count of the measured cross-correlations and the literal helpers of the "
+    "shard header (pe / wr / fl: binary indices, numerators over a power of two, (sign, mantissa as primitive integer, exponent) of a float) are "
+    "harness code; an index expression is resolved to positions with python integers, numpy is asked only whether it accepts the spelling",
 ]
 ASSUMPTIONS = [
     "where an exact denominator is zero (or the radicand is not positive) the documented formula is undefined: the "
@@ -102,6 +117,11 @@ ASSUMPTIONS = [
     "selected contiguously in ascending order; scalars are dyadic (python / numpy floats and ints), so every stored number of the result "
     "is exact and must EQUAL the model value; sum() is called with a start value (CorrFunc has no __radd__: sum(cfs) without one raises "
     "TypeError on the unchanged tree); n(z) of expressions is compared with the exact model values under the first-order bound of the measurements",
+    "many patches: counts and weights are small dyadic numbers (every float64 sum is exact); the two weight vectors of an autocorrelation container "
+    "are one and the same; patch selections are distinct positions; sums take operands with equal sums of weights; measured catalogs place objects "
+    "symmetrically about their patch centre (the patch-consistency check accepts them), neighbouring patches 1/8 deg apart on the equator, scale cut "
+    "0.5 .. 10 arcmin, so every pair is inside or outside the cut by more than 5 %; the autocorrelation pair counts of a measurement are taken as "
+    "measured (the cross-correlation ones are recounted)",
     "call histories consist of the public methods listed in _jk_common.CF_OBS / SD_OBS with valid arguments and of "
     "set_patch_pair with in-range patch indices and one value per bin; arrays handed out by the containers are only "
     "read by the harness, never written; a call that raises is recorded and skipped",
@@ -119,7 +139,10 @@ RULE = ("cases = (subset of dr/rd/rr, auto|cross, bins, patches, all array entri
         "weight cases (kind label .../mag:weights:<profile>) are hand-built containers whose per-patch weights are zero, negative or cancelling; "
         "algebra cases (kind alg/<built|measured>/<auto|cross>/<roles>/<profile>) = (leaf arrays, expression tree with all index expressions and "
         "scalars), non-trivial when the sampled result is finite (or no estimator is defined for the roles: 'raises' is compared); histogram "
-        "alg-op/* counts the operations performed, alg-tree-with/* the trees containing each kind of node")
+        "alg-op/* counts the operations performed, alg-tree-with/* the trees containing each kind of node; many-patches cases (kind big/...) = "
+        "(generator description: seed, patches, bins, roles, density; route of operations with all positions), non-trivial when the sampled result "
+        "is finite; histogram big-patches/* = patches held by the sampled container, big-nonzero-pair-beyond-row-or-column/* = cases with a non-zero "
+        "pair beyond that row or column, big-op/* = operations performed")
 
 
 def est_defined(sub):
@@ -850,9 +873,10 @@ def run(ctx):
     b_normh = jk.Batch(ctx, "Cases_C04_norm_hist", shard=80)
     histories(ctx, b_hist, b_nzh, b_normh)
     ctx.log("hand-built containers and histories done")
+    b_big, b_big_nz, b_big_norm = c04_big.run(ctx)
     b_meas, b_meas_nz = c04_meas.run_measured(ctx)
     b_algm, b_algm_nz = c04_alg.run_measured(ctx)
-    batches = (b_corr, b_nz, b_norm, b_hist, b_nzh, b_normh, b_meas, b_meas_nz, b_algm, b_algm_nz)
+    batches = (b_big, b_big_nz, b_big_norm, b_corr, b_nz, b_norm, b_hist, b_nzh, b_normh, b_meas, b_meas_nz, b_algm, b_algm_nz)
     ctx.log("implementation runs done; evaluating %d cases in Coq" % sum(len(b.items) for b in batches))
     for b in batches:
         b.run()
@@ -866,6 +890,9 @@ def replay(ctx, body):
         return
     if str(r.get("kind", "")).startswith("alg"):
         c04_alg.replay(ctx, r)
+        return
+    if str(r.get("kind", "")).startswith("big"):
+        c04_big.replay(ctx, r)
         return
     spec, kind = r["spec"], r["kind"]
     b, bn = jk.Batch(ctx, "Replay_C04"), jk.Batch(ctx, "Replay_C04_norm")
